@@ -543,6 +543,32 @@ def __init__(a: uint256, b: Bytes[40]):
 """
 
 
+CORPUS["ctor_returndata"] = """
+A: public(immutable(uint256))
+B: public(immutable(address))
+C: public(immutable(bytes32))
+s: public(uint256)
+@deploy
+def __init__(a: uint256):
+    # the identity precompile returns its input: RETURNDATASIZE is 5 for the rest of the constructor
+    r: Bytes[32] = raw_call(0x0000000000000000000000000000000000000004, b"\\x01\\x02\\x03\\x04\\x05", max_outsize=32)
+    A = a + len(r)
+    B = msg.sender
+    C = keccak256(r)
+    self.s = a
+@external
+def sum() -> uint256:
+    return A + self.s
+"""
+
+# source-level values the deployed contract must read back when the constructor is run with the default-valued
+# arguments of deploy_stub_layout (every uint = 1; deployer = vlib.evm.DEPLOYER): getter signature -> 32-byte word(s)
+CORPUS_EXPECT = {
+    "ctor_returndata": {"A()": 6, "s()": 1, "sum()": 7, "B()": "DEPLOYER", "C()": "keccak:0102030405"},
+    "bigframe_ctor": {"A()": 1, "s()": 1000},
+}
+
+
 def example_sources(repo: Path):
     out = {}
     for p in sorted((repo / "examples").rglob("*.vy")):
